@@ -32,8 +32,16 @@ def kruns(rid, entry, mode='SEQ', extra=None, cls='shape-complete', note=''):
                         tiers=['thorough'] if k == 8 else ['quick', 'thorough'], note=note or 'K=%d slots; loops over slots unwound K+1 times with unwinding assertions' % k))
     return out
 RUNS = [dict(id='slot', entry='h_slot', defs={'XV_K': 3}, unwind=5, cls='unbounded', note='slot word operations are loop-free; K only sizes the monitor arrays')]
-RUNS += kruns('init', 'h_init') + kruns('alloc', 'h_alloc') + kruns('gops', 'h_gops') + kruns('acq', 'h_acq', note='SEQ view of acquire/acquire_if_equal (retry loop cut)') + kruns('acq_int', 'h_acq', mode='INT', note='INT: source cell rewritten arbitrarily before every atomic access; retry loop cut by invariant ACQ')
+RUNS += kruns('init', 'h_init') + kruns('alloc', 'h_alloc') + kruns('gops', 'h_gops') + [r for r in kruns('acq', 'h_acq', note='SEQ view of acquire/acquire_if_equal (retry loop cut); the extra SEQ obligation does not depend on K') if r['defs']['XV_K'] in (2, 3)] + kruns('acq_int', 'h_acq', mode='INT', note='INT: source cell rewritten arbitrarily before every atomic access; retry loop cut by invariant ACQ')
+for k in (1, 2):
+    for (nb, bs, bnew, tiers) in ((2, 2, 3, ['quick', 'thorough']), (3, 3, 6, ['thorough'])):
+        RUNS.append(dict(id='dyn_k%d_b%d' % (k, nb), entry='h_dyn', defs={'XV_K': k, 'XV_DYN': 1, 'XV_NB': nb, 'XV_BS': bs, 'XV_BNEW': bnew}, unwind=k + (nb + 1) * bnew + 3,
+                         cls='shape-complete', solver=['--sat-solver', 'cadical'], tiers=tiers,
+                         note='dynamic strategy, K=%d, 0..%d left-over blocks of 1..%d slots each with arbitrary contents; the new block has at most %d slots' % (k, nb, bs, bnew)))
 OBL = {
+  'hp.dynamic.initialize.relinks_all': dict(deciding=True, text='dynamic strategy: initialize on an arbitrary left-over record chains every slot of the in-object array and of EVERY dynamic block exactly once (array, newest block, ..., oldest block), null-terminated; the active-hp counter grows by the total'),
+  'hp.dynamic.alloc.distinct': dict(deciding=True, text='dynamic strategy: after initialize, N successive allocations (N = all slots) return pairwise distinct slots without growing'),
+  'hp.dynamic.need_more.never_throws': dict(deciding=True, text='dynamic strategy: with every slot held the next allocation does not throw: a new block of max(K, total/2) slots is created, chained, put in front of the block list; old slots untouched'),
   'hp.slot.roundtrip': dict(deciding=True, text='set_object(o): not a link, try_get_object yields o; set_link(l): is_link, get_link()==l, try_get_object fails and leaves result untouched; no other slot written'),
   'hp.sync.orders': dict(deciding=True, text='sync precondition: set_object stores release-or-stronger and is followed by a seq_cst fence; set_link stores release-or-stronger; the validating load of acquire uses the caller\'s order'),
   'hp.initialize.all_free': dict(deciding=True, text='initialize_block from arbitrary slot contents yields the chain 0->1->...->K-1->null: Inv_K with all K slots free'),
@@ -58,7 +66,7 @@ OBL.update({
   'hp.acquire.validated': dict(deciding=True, text='[INT] on return with a non-null pointer: store(slot,obj) precedes a seq_cst fence which precedes the load of the source that returned obj, and the slot was not stored to afterwards (or the guard already protected obj and nothing was written)'),
   'hp.acquire_if_equal.iff': dict(deciding=True, text='[INT] acquire_if_equal returns true exactly when the last loaded value equals expected (then the guard holds it); false leaves the guard empty with its slot returned'),
 })
-CANARIES = ['acq.throw', 'aie.throw', 'acq.kept', 'acq.protect_new', 'acq.marked_null', 'acq.null', 'aie.true', 'aie.true_null', 'aie.false_first', 'aie.false_changed', 'aie.false_changed_released',
+CANARIES = ['acq.throw', 'aie.throw', 'acq.kept', 'acq.protect_new', 'acq.marked_null', 'acq.null', 'aie.true', 'aie.true_null', 'aie.false_first', 'aie.false_changed', 'aie.false_changed_released', 'aie.false_mark_only_changed',
   'gops.ctor_throw', 'gops.copy_ctor_throw', 'gops.copy_assign_throw', 'gops.ctor_protect', 'gops.ctor_null', 'gops.copy_ctor_protect', 'gops.copy_ctor_empty',
   'gops.move_ctor_held', 'gops.move_ctor_empty', 'gops.copy_assign_reuse', 'gops.copy_assign_alloc', 'gops.copy_assign_from_empty', 'gops.copy_assign_both_empty',
   'gops.self_copy', 'gops.self_move', 'gops.move_assign_releases', 'gops.move_assign_plain', 'gops.reset_held', 'gops.dtor_held', 'gops.reset_empty', 'gops.reset_twice',
@@ -72,11 +80,17 @@ UNIT = dict(
   drops='templates (T, MarkedPtr, Traits, Strategy; Strategy::K is the shape XV_K); the guard\'s MarkedPtr is a 64-bit word with get() = word & an '
         'arbitrary pointer mask (marked_ptr algebra: other unit); the slot word marked_ptr<void*,1> is the instance with the mark in bit 63; '
         'concurrent_ptr<T>::load forwards to the atomic cell; thread_local local_thread_data is one global struct; C++ references are pointers; '
-        'exceptions are the xv_threw flag (an assignment from a throwing call is not performed: XV_TRY_ASSIGN); the implicit conversion void** -> marked_ptr<void*,1> in set_object is made explicit',
+        'exceptions are the xv_threw flag (an assignment from a throwing call is not performed: XV_TRY_ASSIGN); the implicit conversion void** -> marked_ptr<void*,1> in set_object is made explicit; '
+        'reinterpret_cast between hazard_pointer* and the slot word goes through an explicit injective address map (slot i of the universe at the concrete canonical address XV_BASE + 8*i) instead of cbmc\'s '
+        'native pointer/integer conversion (the code only compares, tags and untags these words); dynamic strategy: operator new / placement new of hazard_pointer_block are a pre-declared buffer with the slots behind the header; '
+        'the basic_hp_thread_control_block member functions are lowered twice (Derived = static / dynamic control block), initialize_block three times (T = static cb, dynamic cb, hazard_pointer_block)',
   assumptions=['stub thread_block_list::acquire_entry: returns a control block with ARBITRARY slot contents (fresh or adopted)',
                'stub add_retired_node / scan / set_deleter / retired_nodes_threshold (retire side: other unit); scan does not write the calling thread\'s own slots',
                'pointer parts of all marked pointers are canonical addresses (bits 63..48 clear) - the precondition of marked_ptr<void*,1>::make_ptr',
-               'rely (INT): other threads write the source concurrent_ptr arbitrarily but never this thread\'s control block, hint or guards'],
+               'rely (INT): other threads write the source concurrent_ptr arbitrarily (pointer and/or mark) but never this thread\'s control block, hint or guards',
+               'model artifact: the 64-bit event clock and the 32-bit event counters of the monitors do not wrap (assumed after the loop havoc of acquire)',
+               'the ghost owner set abstracts all live guards other than the two operands as "held by some other protecting guard"; their slots are checked to be untouched',
+               'remark (not an obligation): thread_data::release_hazard_pointer calls control_block->release_hazard_pointer(...) also when control_block is null (reset/destruction of an empty guard on a thread that never allocated): a member call through a null pointer, harmless in practice because hp is null then'],
   sources=[
     # ---------------- guard_ptr ----------------
     dict(G, id='g_ctor', sig=GP + r'guard_ptr\(const MarkedPtr& p\)', ctor=True,
@@ -165,9 +179,56 @@ UNIT = dict(
     dict(id='td_ensure_has_control_block', file=IMPL, sig=r'void ensure_has_control_block\(\)', c_sig='static void td_ensure_has_control_block(struct thread_data* self)',
          members=['control_block', 'hint'], methods={'acquire_entry': 'TBL_acquire_entry', 'initialize': 'CB_initialize'},
          must_fire={'method:acquire_entry': 1, 'method:initialize': 1}),
+    # ---------------- dynamic strategy: the same basic_hp_thread_control_block text instantiated for Derived = dynamic_hp_thread_control_block ----------------
+    dict(id='dcb_begin', file=IMPL, sig=r'(?<!const )hazard_pointer\* begin\(\)', c_sig='static struct hp_slot* dcb_begin(struct dcb* self)', members=['pointers']),
+    dict(id='dcb_end', file=IMPL, sig=r'(?<!const )hazard_pointer\* end\(\)', c_sig='static struct hp_slot* dcb_end(struct dcb* self)', members=['pointers'],
+         pre_subst=[K], must_fire={'subst:Strategy::K': 1}),
+    dict(id='blk_begin', file=IMPL, sig=r'(?<!const )hazard_pointer\* begin\(\)', which=1, c_sig='static struct hp_slot* blk_begin(struct hpblock_hdr* self)',
+         types={'hazard_pointer*': 'struct hp_slot*'}, must_fire={'cast': 1}),
+    dict(id='blk_end', file=IMPL, sig=r'(?<!const )hazard_pointer\* end\(\)', which=1, c_sig='static struct hp_slot* blk_end(struct hpblock_hdr* self)',
+         members=['size'], self_calls={'begin': 'blk_begin'}, must_fire={'self_call:begin': 1, 'member:size': 1}),
+    dict(id='blk_initialize_next_block', file=IMPL, sig=r'hazard_pointer\* initialize_next_block\(\)', which=1,
+         c_sig='static struct hp_slot* blk_initialize_next_block(struct hpblock_hdr* self)', members=['next'], methods={'begin': 'BLK_begin', 'end': 'BLK_end'},
+         pre_subst=[(r'base::initialize_block\(\*(\w+)\)', r'blk_initialize_block(\1)', 'base_initialize_block')], must_fire={'member:next': 2}),
+    dict(id='dcb_initialize_next_block', file=IMPL, sig=r'hazard_pointer\* initialize_next_block\(\)', which=2,
+         c_sig='static struct hp_slot* dcb_initialize_next_block(struct dcb* self)', members=['hp_block'],
+         pre_subst=[(r'base::initialize_block\(\*(\w+)\)', r'blk_initialize_block(\1)', 'base_initialize_block')], must_fire={'subst:base_initialize_block': 1, 'A_LOAD': 1}),
+    dict(id='dcb_number_of_hps', file=IMPL, sig=r'(?<!constexpr )size_t number_of_hps\(\) const', c_sig='static size_t dcb_number_of_hps(struct dcb* self)',
+         members=['total_number_of_hps'], must_fire={'member:total_number_of_hps': 1}),
+    dict(id='dcb_need_more_hps', file=IMPL, sig=r'hazard_pointer\* need_more_hps\(\)', which=1, c_sig='static struct hp_slot* dcb_need_more_hps(struct dcb* self)',
+         self_calls={'allocate_new_hazard_pointer_block': 'dcb_allocate_new_hazard_pointer_block'}, must_fire={'self_call:allocate_new_hazard_pointer_block': 1}),
+    dict(id='blk_initialize_block', file=IMPL, sig=r'static hazard_pointer\* initialize_block\(T& block\)',
+         c_sig='static struct hp_slot* blk_initialize_block(struct hpblock_hdr* block)', pre_subst=ref('block'),
+         methods={'begin': 'BLK_begin', 'end': 'BLK_end', 'initialize_next_block': 'BLK_initialize_next_block', 'set_link': 'HP_set_link'},
+         must_fire={'method:set_link': 2, 'method:begin': 1, 'method:end': 1, 'method:initialize_next_block': 1}),
+    dict(id='dcb_initialize_block', file=IMPL, sig=r'static hazard_pointer\* initialize_block\(T& block\)',
+         c_sig='static struct hp_slot* dcb_initialize_block(struct dcb* block)', pre_subst=ref('block'),
+         methods={'begin': 'DCB_begin', 'end': 'DCB_end', 'initialize_next_block': 'DCB_initialize_next_block', 'set_link': 'HP_set_link'},
+         must_fire={'method:set_link': 2, 'method:begin': 1, 'method:end': 1, 'method:initialize_next_block': 1}),
+    dict(id='dcb_initialize', file=IMPL, sig=r'void initialize\(hint& hint\)', c_sig='static void dcb_initialize(struct dcb* self, struct hp_slot** hint_p)',
+         pre_subst=[SELF, (r'\bStrategy::number_of_active_hps\b', 'xv_number_of_active_hps', 'active_hps')], subst=[HINT],
+         methods={'number_of_hps': 'DCB_number_of_hps'}, calls={'initialize_block': 'DCB_initialize_block'},
+         must_fire={'A_FADD': 1, 'call:initialize_block': 1, 'subst:hint_ref': 1}),
+    dict(id='dcb_alloc_hazard_pointer', file=IMPL, sig=r'hazard_pointer\* alloc_hazard_pointer\(hint& hint\)',
+         c_sig='static struct hp_slot* dcb_alloc_hazard_pointer(struct dcb* self, struct hp_slot** hint_p)',
+         pre_subst=[SELF], subst=[HINT], methods={'get_link': 'HP_get_link', 'need_more_hps': 'DCB_need_more_hps'}, may_throw=['DCB_need_more_hps'],
+         must_fire={'method:get_link': 1, 'method:need_more_hps': 1, 'may_throw': 1, 'subst:hint_ref': 2}),
+    dict(id='dcb_allocate_new_hazard_pointer_block', file=IMPL, sig=r'hazard_pointer\* allocate_new_hazard_pointer_block\(\)',
+         c_sig='static struct hp_slot* dcb_allocate_new_hazard_pointer_block(struct dcb* self)', members=['total_number_of_hps', 'hp_block'],
+         pre_subst=[K, (r'\bStrategy::number_of_active_hps\b', 'xv_number_of_active_hps', 'active_hps'),
+                    (r'hazard_pointer_block::operator new\(', 'XV_BLOCK_NEW(', 'block_operator_new'),
+                    (r'::new \((\w+)\) hazard_pointer_block\(', r'XV_BLOCK_CTOR(\1, ', 'placement_new'),
+                    (r'sizeof\(hazard_pointer_block\)', 'sizeof(struct hpblock_hdr)', 'sizeof_block'), (r'sizeof\(hazard_pointer\)', 'sizeof(struct hp_slot)', 'sizeof_slot'),
+                    (r'this->initialize_block\(\*block\)', 'blk_initialize_block(block)', 'static_initialize_block'), (r'\bvoid\* buffer\b', 'struct hpblock_hdr* buffer', 'buffer_type')],
+         calls={'std::max': 'XV_MAX'},
+         must_fire={'A_FADD': 1, 'A_LOAD': 1, 'A_STORE': 1, 'subst:block_operator_new': 1, 'subst:placement_new': 1, 'subst:static_initialize_block': 1, 'call:std::max': 1}),
   ],
   runs=RUNS,
   obligations=OBL,
   loop_obligation={'ACQ': 'hp.guard_ops.preserve_inv'},
+  replays={o: dict(src='replay_guard.cpp') for o in (
+      'hp.guard_ops.empty_holds_no_slot', 'hp.alloc.k_available', 'hp.alloc.exhausted_throws', 'hp.guard_ops.preserve_inv', 'hp.ctor.protects', 'hp.copy.shares',
+      'hp.move.empties_source', 'hp.self_assign.noop', 'hp.reset.releases', 'hp.reset.idempotent', 'hp.swap.exchanges', 'hp.release.returns_slot',
+      'hp.reclaim.retires_and_resets', 'hp.acquire.snapshot', 'hp.acquire_if_equal.iff')},
   canaries=CANARIES,
 )
